@@ -43,13 +43,14 @@ Tie (three parts, all on the working tree on every run):
     re-run with an instant handler on a plain object on a fresh connection (real loop) and must be answered byte-identically.
  3. oracle on the real code = the property's outcome table, judged independently of the model.
 """
-import os, random, struct, multiprocessing, importlib, collections
+import os, random, struct, multiprocessing, importlib, collections, itertools
 import vf
 import rmc_servers as T
 import rmc_server_sim as R
 import rmc_results as RES
 import rmc_frames as FR
 import c11_objects as OBJ
+import c11_duplex as DUP
 from nintendo.nex import errors, settings as nexsettings
 
 LEVEL = "proof"
@@ -470,11 +471,87 @@ def object_jobs(kind, srvinfos, rng, tier, minor, all_codes, extra):
     return jobs
 
 
+
+# ------------------------------------------------------------------ calls in BOTH directions (harness/c11_duplex.py)
+DUPLEX_BASE = ("ok", "unknown-method", "raise", "noresponse")
+
+
+def duplex_sessions(srvinfos, rng, tier, minor, all_codes):
+    """schedules on one connection: the served side has 1..3 calls of its own outstanding towards the peer while the peer sends
+    requests of every outcome kind (success, unknown method, raising handler, response-less protocol, + the rest of the mix) and
+    answers the calls before / between / after them. -> sessions in the format of the other families (cases = the peer's
+    requests in order of arrival; results[0]["duplex"] = the whole schedule, the records of the other events, the verdict on the calls)"""
+    quick = tier == "quick"
+    si = srvinfos[0]
+    pool = object_cases(si, 0, rng, minor, all_codes, 2 if quick else 5, None, "duplex")
+    by = collections.defaultdict(list)
+    for c in pool: by[c["kind"].split(":", 1)[1].split(":")[0]].append(c)
+    nores = []
+    if len(srvinfos) > 1:
+        nores = [c for c in object_cases(srvinfos[1], 1, rng, minor, all_codes, 2, None, "duplex") if c["kind"].split(":")[1] in ("ok", "raise", "stub")]
+    def base(kind):
+        if kind == "noresponse": return rng.choice(nores) if nores else rng.choice(pool)
+        if kind == "raise": return rng.choice(by.get("raise") or pool)
+        return rng.choice(by.get(kind) or by.get("unsupported") or pool)
+    def call_event():
+        p = rng.choice([si["protocol"], si["protocol"], rng.randrange(1, 0x7F), 0x7F, rng.randrange(0x80, 0x10000)])
+        return {"ev": "call", "protocol": p, "method": rng.choice([1, 2, rng.randrange(1, 0x8000), rng.randrange(1 << 32)]),
+                "body": rng.randbytes(rng.choice([0, 1, 4, 30])).hex(), "noresponse": False}
+    def answer_event(i, ce):
+        if rng.random() < 0.7: return {"ev": "ans", "call": i, "kind": "ok", "protocol": ce["protocol"], "method": ce["method"] & 0xFFFF7FFF, "body": rng.randbytes(rng.choice([0, 1, 8, 40])).hex()}
+        return {"ev": "ans", "call": i, "kind": "err", "protocol": ce["protocol"], "code": rng.choice(all_codes + [0x80010002, 0x80040001, 1])}
+    plans = []      # (number of calls, number of base requests, schedules)
+    perms = list(itertools.permutations(DUPLEX_BASE))
+    plans.append((1, DUP.interleavings(4, 1, rng, 100)))
+    plans.append((2, DUP.interleavings(4, 2, rng, 10 if quick else 60)))
+    plans.append((3, DUP.interleavings(4, 3, rng, 6 if quick else 40)))
+    plans.append((1, DUP.interleavings(1, 1, rng, 10)))
+    sessions = []
+    for n_calls, scheds in plans:
+        for sched in scheds:
+            for perm in ([rng.choice(perms)] if quick else rng.sample(perms, 4)):
+                reqs = [base(k) for k in perm]
+                events, cevs, open_ = [], {}, set()
+                for tok in sched:
+                    if tok[0] == "call":
+                        cevs[tok[1]] = call_event(); events.append(cevs[tok[1]]); open_.add(tok[1])
+                        if rng.random() < 0.1: events.append(dict(call_event(), noresponse=True)); cevs[max(cevs) + 100] = events[-1]
+                    elif tok[0] == "ans":
+                        # (calls are numbered in invocation order, response-less ones included)
+                        events.append(answer_event([id(e) for e in events if e["ev"] == "call"].index(id(cevs[tok[1]])), cevs[tok[1]]))
+                        open_.discard(tok[1])
+                        if rng.random() < 0.15:     # the answer once more / a response nobody waits for
+                            events.append({"ev": "stray", "kind": rng.choice(["ok", "err"]), "protocol": cevs[tok[1]]["protocol"], "method": 1,
+                                           "call_id": rng.choice([0, 0xFFFFFFFF, rng.randrange(1 << 32), 1000 + rng.randrange(1000)]), "code": 0x80010002})
+                    else:
+                        c = reqs[tok[1] % len(reqs)]
+                        events.append({"ev": "req", "case": dict(c, kind="duplex%d:%s" % (len(open_), c["kind"].split(":", 1)[1]), duplex=len(events))})
+                if rng.random() < 0.5:
+                    c = base("ok"); events.append({"ev": "req", "case": dict(c, kind="duplex-after:%s" % c["kind"].split(":", 1)[1], duplex=len(events))})
+                sessions.append(events)
+    pre = R.prebuild(srvinfos)
+    out = []
+    for events in sessions:
+        recs = DUP.run_sessions([(srvinfos, events, minor)], prebuilt=pre)[0]
+        cases = [e["case"] for e in events if e["ev"] == "req"]
+        results = [r for e, r in zip(events, recs) if e["ev"] == "req"]
+        if not results: continue
+        for r in results: r.setdefault("sent", []); r.setdefault("loop", "alive")
+        others = [[k, r] for k, (e, r) in enumerate(zip(events, recs)) if e["ev"] != "req"]
+        results[0]["duplex"] = {"events": events, "records": others, "bad": DUP.judge_calls(events, recs)}
+        sel = [i for i, x in enumerate(results) if not x.get("skipped")]
+        fresh = dict(zip(sel, R.run_fresh(srvinfos, [OBJ.plain(cases[i]) for i in sel], minor)))
+        out.append((srvinfos, cases, results, minor, fresh, None))
+    return out
+
+
 def _worker(job):
     """job = (kind, srvinfos, seed, tier, minor, all_codes, extra) -> (srvinfos, cases, results, minor)"""
     kind, srvinfos, seed, tier, minor, all_codes, extra = job
     rng = random.Random(seed)
     _SEEN_SLOTS.clear()
+    if kind == "duplex":
+        return duplex_sessions(srvinfos, rng, tier, minor, all_codes)
     if kind == "server":
         cases = unknown_protocol_cases(srvinfos, rng, 2, minor) + cases_for_server(srvinfos[0], 0, rng, tier, minor, all_codes)
         jobs = [(srvinfos, cases, minor)]
@@ -878,6 +955,12 @@ def run(ctx):
             if s["protocol"] not in used and len(pick) < 8:
                 pick.append(s); used.add(s["protocol"])
         jobs.append(("objects-mixed", pick, rng.randrange(1 << 30), ctx.tier, rng.choice([0, 3]) + 100 * rng.randrange(len(R.NEX_VERSIONS)), all_codes, 400 if quick else 2000))
+    # calls in BOTH directions on one connection: every class (+ a response-less one) under schedules of outgoing calls,
+    # peer requests and the peer's answers
+    for i, s in enumerate(servers):
+        nr = next((x for x in nores[(i + ctx.seed) % max(1, len(nores)):] + nores if x["protocol"] != s["protocol"]), None)
+        cfg = (3 if (i + ctx.seed) % 2 else 0) + 100 * ((i + ctx.seed) % len(R.NEX_VERSIONS))
+        jobs.append(("duplex", [s] + ([nr] if nr else []), rng.randrange(1 << 30), ctx.tier, cfg, all_codes, None))
     par = min(16, os.cpu_count() or 1)
     with multiprocessing.get_context("fork").Pool(par) as pool:
         parts = pool.map(_worker, jobs, chunksize=1)
@@ -1019,6 +1102,12 @@ def run(ctx):
                            "objects": case["objects"], "real": res, "model": o,
                            "how": "harness/corr_C11.py replay(): the sequence on one connection in virtual time (harness/c11_objects.py) against objects of the "
                                   "user subclasses `objects` (truth-value flavours) of the registered classes; the last request is judged"})
+        elif bad and case.get("duplex") is not None:
+            evs = results[0]["duplex"]["events"][:case["duplex"] + 1]
+            ctx.violation("c11:%s:%s" % (bad[0], case["kind"].split(":")[0].rstrip("0123456789")),
+                          "RMC server: %s [calls in both directions on one connection; schedule: %s]" % (bad[1], DUP.describe(evs)),
+                          {"duplex": evs, "case": case, "minor_version": minor, "registered": ["%s.%s" % (s["module"], s["class"]) for s in srvinfos],
+                           "real": res, "model": o, "how": "harness/corr_C11.py replay(): the schedule (harness/c11_duplex.py) on one connection; its last event is the judged request"})
         elif bad:
             ctx.violation("c11:%s:%s" % (bad[0], case["kind"].split(":")[0]), "RMC server: " + bad[1],
                           {"case": case, "minor_version": minor, "registered": ["%s.%s" % (s["module"], s["class"]) for s in srvinfos],
@@ -1037,6 +1126,15 @@ def run(ctx):
                                   {"sequence": cases[:ix[1] + 1], "case": case, "minor_version": minor, "registered": ["%s.%s" % (s["module"], s["class"]) for s in srvinfos],
                                    "objects": case["objects"], "real": res, "fresh": fr,
                                    "how": "harness/corr_C11.py replay(): the sequence in virtual time against the user subclasses vs its last request, instant, plain object, fresh connection"})
+            elif case.get("duplex") is not None:
+                if (fr["sent"], fr["loop"]) != (res["sent"], res["loop"]) and not ctx.violations:
+                    evs = results[0]["duplex"]["events"][:case["duplex"] + 1]
+                    who = "%s.%s method %d (%s)" % (case["module"], case["class"], case["method"], case["kind"])
+                    ctx.violation("c11:outstanding-call-dependence:%s" % case["kind"].split(":")[0].rstrip("0123456789"),
+                                  "RMC server: %s is answered %s in the schedule [%s], but %s alone on a fresh connection without calls of the other direction"
+                                  % (who, res["sent"] or res["loop"], DUP.describe(evs), fr["sent"] or fr["loop"]),
+                                  {"duplex": evs, "case": case, "minor_version": minor, "registered": ["%s.%s" % (s["module"], s["class"]) for s in srvinfos],
+                                   "real": res, "fresh": fr, "how": "harness/corr_C11.py replay(): the schedule on one connection vs its last request on a fresh one"})
             elif (fr["sent"], fr["loop"]) != (res["sent"], res["loop"]) and not ctx.violations:
                 seq = shrink_history(srvinfos, cases[:ix[1] + 1], minor, fr)
                 who = "%s.%s method %d (%s)" % (case["module"], case["class"], case["method"], case["kind"])
@@ -1049,6 +1147,25 @@ def run(ctx):
         if hres != real_h or reaction != real:
             n_diff += 1
             if first is None: first = (case, res, o, real_h + " => " + real, minor, [s["class"] for s in srvinfos])
+    # the CALL side of the schedules with calls in both directions
+    n_dup = n_dup_req = n_dup_while = n_dup_calls = 0
+    for srvinfos, cases, results, minor, fresh, export in sessions:
+        d = results[0].get("duplex") if results else None
+        if d is None: continue
+        n_dup += 1
+        n_dup_req += len(cases)
+        n_dup_while += sum(1 for c in cases if c["kind"].startswith("duplex") and c["kind"][6:7].isdigit() and c["kind"][6] != "0")
+        n_dup_calls += sum(1 for e in d["events"] if e["ev"] == "call")
+        if d["bad"]:
+            key, why, k = d["bad"]
+            evs = d["events"][:k + 1]
+            ctx.violation("c11:duplex:%s" % key, "RMC connection with calls in both directions: %s [schedule: %s]" % (why, DUP.describe(evs)),
+                          {"duplex": evs, "judge": "calls", "minor_version": minor, "registered": ["%s.%s" % (s["module"], s["class"]) for s in srvinfos],
+                           "how": "harness/corr_C11.py replay(): the schedule (harness/c11_duplex.py) on one connection, judged by c11_duplex.judge_calls"})
+    ctx.extra["connections_with_calls_in_both_directions"] = n_dup
+    ctx.extra["outgoing_calls_on_those_connections"] = n_dup_calls
+    ctx.extra["peer_requests_on_those_connections"] = n_dup_req
+    ctx.extra["peer_requests_arriving_while_an_outgoing_call_is_outstanding"] = n_dup_while
     ctx.extra["requests_to_objects_of_stateful_user_subclasses_in_virtual_time"] = n_obj
     ctx.extra["requests_arriving_while_the_addressed_object_is_falsy"] = n_falsy
     ctx.extra["requests_whose_handler_awaited_virtual_time_first"] = n_slow
@@ -1085,7 +1202,7 @@ def run(ctx):
 def replay(ctx, path):
     import json
     r = json.load(open(path))
-    case = r["case"]
+    case = r.get("case")
     servers, _ = T.extract_all(vf.REPO)
     lookup = {"%s.%s" % (s["module"], s["class"]): s for s in servers}
     regs = [lookup[n] for n in r.get("registered", [])]
@@ -1095,6 +1212,23 @@ def replay(ctx, path):
             ref = FR.reference(FR.schema_for(session_settings(r.get("minor_version", 0))), bool(c["rq"]["hdr"]), c["rq"]["tys"], bytes.fromhex(c["body"]))
             if ref is not None: c["ref"] = ref
         return c
+    if "duplex" in r:
+        evs = r["duplex"]
+        recs = DUP.run_sessions([(regs, evs, r.get("minor_version", 0))])[0]
+        for e, x in zip(evs, recs): print(DUP.describe([e]), "->", {k: x.get(k) for k in ("sent", "loop", "hang", "completed", "outstanding", "skipped") if x.get(k)})
+        bad = DUP.judge_calls(evs, recs)
+        if r.get("judge") != "calls" and not bad and evs[-1]["ev"] == "req":
+            c = evs[-1]["case"]
+            if recs[-1].get("skipped"): bad = ("skipped", "the receive loop had ended")
+            else:
+                bad = judge_case(c, regs[c["srv"]] if c["srv"] is not None else None, recs[-1])
+                if not bad:
+                    fr = R.run_fresh(regs, [OBJ.plain(c)], r.get("minor_version", 0))[0]
+                    print("alone on a fresh connection ->", fr["sent"] or fr["loop"])
+                    if (fr["sent"], fr["loop"]) != (recs[-1]["sent"], recs[-1]["loop"]): bad = ("outstanding-call-dependence",)
+        if bad: print("VIOLATION", bad)
+        return 1 if bad else 0
+    case = r["case"]
     for c in r.get("sequence", []) + [case]: reref(c)
     if "objects" in r:
         seq = r["sequence"]
